@@ -26,11 +26,10 @@ RULES = [   # (file regex, item regex, properties); first match wins
                                r"get_struct_fields$|get_fields$|get_field_types$", ["C05"]),
     (r"derive/src/traits\.rs", r".*", INFRA),
     (r"src/offset_of\.rs", r".*", ["C19"]),
-    (r"src/lib\.rs", r"write_zeroes$|fill_zeroes$|zeroed$", ["C12"]),
+    (r"src/lib\.rs", r"zeroed$", ["C12"]),
     (r"src/zeroable\.rs", r".*", ["C12"]),
     (r"src/allocation\.rs", r"zeroed_(rc|arc)", ["C12"]),
     (r"src/allocation\.rs", r"pod_collect_to_vec$", ["C16"]),
-    (r"src/allocation\.rs", r"from_box_bytes$", ["C15", "C11"]),
     (r"src/allocation\.rs", r".*", ["C15"]),
 ]
 
